@@ -25,15 +25,17 @@ CONSTANTS CapA,        \* document-cache capacity
           Hard,        \* recent-write tier hard limit (emergency drain)
           MaxOps,      \* behaviour length
           MaxPokes,    \* adversarial pokes per behaviour
-          AllowOrphan  \* may a poke plant a mirror entry for an id without canonical record?
+          AllowOrphan, \* may a poke plant a mirror entry for an id without canonical record?
+          AllowBad     \* may a poke plant an orphan mirror entry that cannot be drained (payload of the wrong dimension)?
 
 VARIABLES canon, hot, l1a, hist, npokes, done, rok, dok, sok
 
 vars == <<canon, hot, l1a, hist, npokes, done, rok, dok, sok>>
 
 CAbsent == [p |-> FALSE, v |-> 0, m |-> NoMeta, ver |-> 0]
-HAbsent == [p |-> FALSE, v |-> 0, m |-> NoMeta, tv |-> 0, tp |-> 0]
+HAbsent == [p |-> FALSE, v |-> 0, m |-> NoMeta, tv |-> 0, tp |-> 0, bad |-> FALSE]
 EmptyHot == [i \in Ids |-> HAbsent]
+BadEntry == [p |-> TRUE, v |-> 0, m |-> NoMeta, tv |-> 1, tp |-> 0, bad |-> TRUE]    \* see PokeBad
 
 KVof(c) == [i \in Ids |-> IF c[i].p THEN Doc(c[i].v, c[i].m) ELSE Absent]
 HotIds(h) == { i \in Ids : h[i].p }
@@ -55,7 +57,13 @@ L1Put(s, e)     == LET t == <<e>> \o L1Remove(s, e.id)
 (* code's intended repair path - deviation F15 from DrainNeutral when the  *)
 (* entry was planted); a diverged payload invalidates the cache entry.     *)
 (***************************************************************************)
-DrainCanon(c, h) == [i \in Ids |-> IF h[i].p /\ ~c[i].p
+\* An entry without canonical record whose payload the canonical store refuses (wrong dimension) cannot be repaired: it
+\* is put back into the mirror (reinsert_failed_documents).  A drain in which NOTHING succeeded and something failed
+\* reports an error; the insert that triggered it as an emergency drain is then rejected.
+Failed(c, h)   == { i \in Ids : h[i].p /\ ~c[i].p /\ h[i].bad }
+DrainFails(c, h) == Failed(c, h) # {} /\ HotIds(h) \ Failed(c, h) = {}
+DrainHot(c, h) == [i \in Ids |-> IF i \in Failed(c, h) THEN h[i] ELSE HAbsent]
+DrainCanon(c, h) == [i \in Ids |-> IF h[i].p /\ ~c[i].p /\ ~h[i].bad
                                    THEN [p |-> TRUE, v |-> h[i].v, m |-> h[i].m, ver |-> 1]
                                    ELSE c[i]]
 DrainL1(l, c, h) == SelectSeq(l, LAMBDA e : ~(h[e.id].p /\ c[e.id].p /\ h[e.id].v # c[e.id].v))
@@ -69,16 +77,20 @@ Log(r) == hist' = Append(hist, r)
 Insert(id, v, m) ==
   LET emerg == Cardinality(HotIds(hot)) >= Hard
       c0 == IF emerg THEN DrainCanon(canon, hot) ELSE canon
-      h0 == IF emerg THEN EmptyHot ELSE hot
+      h0 == IF emerg THEN DrainHot(canon, hot) ELSE hot
       l0 == IF emerg THEN DrainL1(l1a, canon, hot) ELSE l1a
       ver == IF c0[id].p THEN c0[id].ver + 1 ELSE 1
-  IN /\ canon' = [c0 EXCEPT ![id] = [p |-> TRUE, v |-> v, m |-> m, ver |-> ver]]
-     /\ hot'   = [h0 EXCEPT ![id] = [p |-> TRUE, v |-> v, m |-> m, tv |-> ver, tp |-> v]]
-     /\ l1a'   = L1Remove(l0, id)
-     /\ dok'   = (dok /\ (emerg => KVof(c0) = KVof(canon)))
-     /\ sok'   = (sok /\ Cardinality(HotIds(hot')) <= Hard)
-     /\ UNCHANGED <<npokes, rok>>
-     /\ Log(Rec("insert", [id |-> id, v |-> v, m |-> m]))
+  IN IF emerg /\ DrainFails(canon, hot)
+     THEN \* "insert rejected: hot tier at hard limit and emergency flush failed": nothing changes
+          /\ UNCHANGED <<canon, hot, l1a, npokes, rok, dok, sok>>
+          /\ Log(Rec("insert", [id |-> id, v |-> v, m |-> m]))
+     ELSE /\ canon' = [c0 EXCEPT ![id] = [p |-> TRUE, v |-> v, m |-> m, ver |-> ver]]
+          /\ hot'   = [h0 EXCEPT ![id] = [p |-> TRUE, v |-> v, m |-> m, tv |-> ver, tp |-> v, bad |-> FALSE]]
+          /\ l1a'   = L1Remove(l0, id)
+          /\ dok'   = (dok /\ (emerg => KVof(c0) = KVof(canon)))
+          /\ sok'   = (sok /\ Cardinality(HotIds(hot')) <= Hard)
+          /\ UNCHANGED <<npokes, rok>>
+          /\ Log(Rec("insert", [id |-> id, v |-> v, m |-> m]))
 
 \* bulk_load_cold_tier: canonical write that bypasses the mirror; the mirror entry of the id is evicted
 \* (before the fix of F14 it was left in place and went stale)
@@ -114,7 +126,7 @@ UpdateMeta(id, m, mg) ==
 (************************** drains and audits ******************************)
 Flush ==
   /\ canon' = DrainCanon(canon, hot)
-  /\ hot'   = EmptyHot
+  /\ hot'   = DrainHot(canon, hot)
   /\ l1a'   = DrainL1(l1a, canon, hot)
   /\ dok'   = (dok /\ KVof(canon') = KVof(canon))
   /\ UNCHANGED <<npokes, rok, sok>>
@@ -205,9 +217,21 @@ PokeL1a(id, v, tv, tp) ==
 PokeHot(id, v, m, tv, tp) ==
   /\ npokes < MaxPokes /\ npokes' = npokes + 1
   /\ (AllowOrphan \/ canon[id].p)
-  /\ hot' = [hot EXCEPT ![id] = [p |-> TRUE, v |-> v, m |-> m, tv |-> tv, tp |-> tp]]
+  \* With undrainable entries around, the tier is no longer emptied by every emergency drain, so a plant that pushes it over
+  \* the hard limit would break the bound without any insert being involved: such plants are excluded in that family.
+  /\ (AllowBad => (hot[id].p \/ Cardinality(HotIds(hot)) < Hard))
+  /\ hot' = [hot EXCEPT ![id] = [p |-> TRUE, v |-> v, m |-> m, tv |-> tv, tp |-> tp, bad |-> FALSE]]
   /\ UNCHANGED <<canon, l1a, rok, dok, sok>>
   /\ Log(Rec("poke_hot", [id |-> id, v |-> v, m |-> m, tv |-> tv, tp |-> tp]))
+
+\* an orphan mirror entry whose payload has the wrong dimension: no read serves it, no drain can repair it
+PokeBad(id) ==
+  /\ AllowBad /\ ~canon[id].p /\ ~hot[id].p
+  /\ Cardinality(HotIds(hot)) < Hard        \* a planted entry never takes the tier over its limit by itself (see PokeHot)
+  /\ npokes < MaxPokes /\ npokes' = npokes + 1
+  /\ hot' = [hot EXCEPT ![id] = BadEntry]
+  /\ UNCHANGED <<canon, l1a, rok, dok, sok>>
+  /\ Log(Rec("poke_bad", [id |-> id]))
 
 (***************************************************************************)
 GenMetas == { [k1 |-> 0, k2 |-> 0], [k1 |-> 1, k2 |-> 0], [k1 |-> NVal, k2 |-> 1] }
@@ -215,8 +239,15 @@ UpdMetas == { [k1 |-> 1, k2 |-> 0], [k1 |-> 0, k2 |-> NVal] }
 Batches  == { <<1, NI>>, <<NI, NI>> }
 TokVers  == 1..2
 
-Init == /\ canon = [i \in Ids |-> CAbsent] /\ hot = EmptyHot /\ l1a = <<>>
-        /\ hist = <<>> /\ npokes = 0 /\ done = FALSE /\ rok = TRUE /\ dok = TRUE /\ sok = TRUE
+\* the family with undrainable entries starts with one planted (and logged, so the replay plants it too)
+InitEmpty == /\ canon = [i \in Ids |-> CAbsent] /\ l1a = <<>> /\ hot = EmptyHot /\ hist = <<>> /\ npokes = 0
+             /\ done = FALSE /\ rok = TRUE /\ dok = TRUE /\ sok = TRUE
+Init == IF ~AllowBad THEN InitEmpty
+        ELSE /\ canon = [i \in Ids |-> CAbsent] /\ l1a = <<>>
+             /\ hot = [EmptyHot EXCEPT ![1] = BadEntry]
+             /\ hist = << Rec("poke_bad", [id |-> 1]) >>
+             /\ npokes = 1
+             /\ done = FALSE /\ rok = TRUE /\ dok = TRUE /\ sok = TRUE
 
 Step ==
   /\ Len(hist) < MaxOps /\ done' = FALSE
@@ -234,6 +265,7 @@ Step ==
      \/ \E id \in Ids, f \in {"getmeta", "exists"} : CanonOnly(id, f)
      \/ \E id \in Ids, v \in Vecs, tv \in TokVers, tp \in Vecs : PokeL1a(id, v, tv, tp)
      \/ \E id \in Ids, v \in Vecs, m \in GenMetas, tv \in TokVers, tp \in Vecs : PokeHot(id, v, m, tv, tp)
+     \/ \E id \in Ids : PokeBad(id)
 
 Finish == Len(hist) = MaxOps /\ ~done /\ done' = TRUE /\ UNCHANGED <<canon, hot, l1a, hist, npokes, rok, dok, sok>>
 
